@@ -37,6 +37,8 @@ def observed_locations(report, base=None):
     def result(r):
         focus = r["scalars"].get("focusNode", "")
         focus = focus[len(base or NODE_NS):] if focus.startswith(base or NODE_NS) else focus
+        if focus.startswith("t1/"):          # hierarchical ids (idStyle 1): the node is named by the last segment
+            focus = focus.rsplit("/", 1)[1]
         out.append(("result", focus, loc(r)))
         for t in r["arrays"].get("trace", []):
             out.append(("trace", focus, loc(t)))
@@ -76,7 +78,8 @@ def run(tier):
                       "level": {"direct": rnd.choice(["violation", "warning"]), "viaNested": "violation"},
                       "lexical": lexical, "hasSource": s["hasMaps"] and s["hasSource"], "root": s["src"]["root"],
                       "additional": {f: sorted(ns) for f, ns in s["src"]["additional"].items() if ns},
-                      "rangeStyle": rnd.randrange(6), "compareStripped": True, "ctxRef": rnd.randrange(3)})
+                      "rangeStyle": rnd.randrange(6), "compareStripped": True, "ctxRef": rnd.randrange(3),
+                      "idStyle": i % 2})
     obs = vlib.run_harness("reporttree", cases, "c14", timeout=3000)
     oby = {o["id"]: o for o in obs}
     nloc = 0
@@ -125,7 +128,8 @@ def run(tier):
         "evaluations": len(cases), "distinct_nontrivial": sum(1 for s in scen if s["hasMaps"]),
         "rule": "scenarios enumerated by TLC (LexCases.tla, %d of 100 hash slices of 3^4 entry modes x 3^4 file assignments x 12 "
                 "range tuples with magnitudes 0..123456 rotated per node, plus the no-source-maps scenario); rendered as "
-                "AMF-shaped SourceMap/lexical/BaseUnitSourceInformation nodes (3 range spellings, single-vs-array lexical), "
+                "AMF-shaped SourceMap/lexical/BaseUnitSourceInformation nodes (3 range spellings, single-vs-array lexical, flat node ids and "
+                "hierarchical ones where a child's id extends its parent's), "
                 "validated with a profile producing results, traces and nested sub-results about all four nodes; every "
                 "location compared with Graph!Location, and the report compared with the one of the stripped graph; "
                 "non-trivial = scenario with source maps" % len(parts),
